@@ -39,6 +39,7 @@ Fails(c, s) ==
     [] c.kind = "arith"   -> ArithFails(c)
     [] c.kind = "synth"   -> C06Fails(c)
     [] c.kind = "codec"   -> C16CodecFails(c)
+    [] c.kind = "codecdeep" -> C16DeepFails(c)
     [] c.kind = "bitio"   -> C16BitIOFails(c)
     [] c.kind = "dict"    -> C16DictFails(c)
     [] c.kind = "dbentry" -> C17EntryFails(c)
@@ -50,6 +51,8 @@ Fails(c, s) ==
     [] c.kind = "model"   -> C12ModelFails(c)
     [] c.kind = "intfn"   -> C12IntFails(c)
     [] c.kind = "cnf"     -> C05CnfFails(c)
+    [] c.kind = "cnfdeep" -> C05DeepFails(c)
+    [] c.kind = "csatdeep" -> C05DeepSatFails(c)
     [] c.kind = "csat"    -> C05SatFails(c)
     [] c.kind = "miter"   -> C13Fails(c)
     [] c.kind = "pass"    -> IF c.prop = "C03" THEN C03Fails(c) ELSE C18Fails(c)
@@ -63,6 +66,7 @@ Drift(c, s) == IF c.kind = "hist" THEN HistDrift(c, s)
                ELSE IF c.kind = "pass" THEN PassDrift(c)
                ELSE IF c.kind = "lookup" THEN C17LookupDrift(c)
                ELSE IF c.kind = "cnf" THEN C05CnfDrift(c) \cup C05EncoderDrift(c)
+               ELSE IF c.kind = "cnfdeep" THEN C05DeepDrift(c)
                ELSE IF c.kind = "arith" THEN ArithDrift(c)
                ELSE IF c.kind = "minimize" THEN C04ConeDrift(c) ELSE {}
 
